@@ -179,6 +179,29 @@ theorem field_frame_unterminated (hs ss : List Str) (L : Str)
     rw [List.append_nil] at hv
     exact ⟨v, hv, hlo, by omega⟩
 
+/-- a last line without a newline is never examined by `_get_token_start_idx` -/
+theorem startScan_noNl (d Z : Str) (k : Nat) (stack : Str) (h : '\n' ∉ Z) : startScan d Z k stack = -1 := by
+  have := startScan_line d Z [] k stack h
+  rw [List.append_nil] at this
+  rw [this]; rfl
+
+/-- the frame when the whole section is one last line `L` without a newline: `_get_token_start_idx` finds nothing -/
+theorem field_frame_single (hs : List Str) (L : Str)
+    (hh : hs.all headerLineOk = true) (hF : fieldStart L = true) (hLok : '\n' ∉ L) (hL : lastEv none [] L .none = .plain) :
+    tokenStartIdx (unlines hs ++ L).toArray = -1
+    ∧ deriveFormat (unlines hs ++ L).toArray ≠ .numpydoc
+    ∧ ∃ lf : Int, lastDocStrToken (unlines hs ++ L).toArray = some lf
+        ∧ ((unlines hs).length : Int) ≤ lf ∧ lf < ((unlines hs).length + L.length : Nat) := by
+  refine ⟨?_, ?_, ?_⟩
+  · rw [tokenStartIdx_eq]
+    have := startScan_header (unlines hs ++ L) hs L 0 (headerOk_sound hs hh)
+    rw [this, startScan_noNl _ L _ _ hLok]
+  · have := deriveFormat_ne_numpydoc (unlines hs) L [] hF
+    rw [List.append_nil] at this; exact this
+  · obtain ⟨v, hv, hlo, hhi⟩ := lastTok_struct (unlines hs) L [] (unlines_end _) hL (Or.inl rfl) rfl
+    rw [List.append_nil] at hv
+    exact ⟨v, hv, hlo, by omega⟩
+
 theorem tokens_head_nd : tokensSet.all (fun t => match t.toList with | c :: _ => c != '-' | [] => false) = true := by decide
 
 /-- a line that starts (after indentation) with a token is not made of dashes -/
@@ -274,6 +297,14 @@ theorem whence_sandwich (cur h s f r : Str) (hne : h ++ s ++ f ≠ [])
       simp only at e1 e2
       subst e1 e2
       exact haf_sandwich _ _ _
+
+/-- no token word anywhere: `_get_token_last_idx` answers −1 -/
+theorem tokenLastIdx_quiet (d : Str) (h : quiet none [] d = true) : tokenLastIdx d.toArray = .ok (-1) := by
+  have h1 : lastDocStrToken d.toArray = none := by
+    rw [lastDocStrToken_eq, tokScan_eq_run]
+    exact quiet_sound d 0 none none [] [] (Or.inl rfl) h
+  unfold tokenLastIdx tokenLastIdxCount
+  rw [h1]; rfl
 
 /-! ### the last line of a string -/
 
@@ -388,5 +419,46 @@ theorem split3 (d h f : Str) (hp : h <+: d) (hs : f <:+ d) (hlen : h.length + f.
     simp only [List.length_append] at this; omega
   obtain ⟨sec, hsec⟩ := List.suffix_of_suffix_length_le hs hrs hlr
   exact ⟨sec, by rw [List.append_assoc, hsec, hr]⟩
+
+/-! ### small facts used by the property theorems -/
+
+/-- `L` is the Google `Raises:` heading (treated specially by `_get_token_last_idx_if_no_next_token`) -/
+def isRaises (L : Str) : Bool := lstrip L == "Raises:".toList
+
+theorem lineVerdict_none (n : Nat) (L : Str) (h : isRaises L = false) : lineVerdict n L = none := by
+  unfold lineVerdict; unfold isRaises at h; rw [h]; rfl
+
+theorem lineVerdict_raises (n : Nat) (L : Str) (h : isRaises L = true) : lineVerdict n L = some ((n : Int) - 1) := by
+  unfold lineVerdict; unfold isRaises at h; rw [h]; rfl
+
+theorem tokLine_lineOk (L : Str) (h : tokLine L = true) : '\n' ∉ L := by
+  simp only [tokLine, Bool.and_eq_true] at h; exact lineOk_sound L h.1
+
+theorem lstrip_length (Z : Str) : (lstrip Z).length = Z.length - leadingWs Z := by
+  rw [← drop_leadingWs, List.length_drop]
+
+/-- what `_get_token_last_idx` returns in the absorbed shape, in terms of the whole string -/
+theorem absorbed_last (d A : Str) (hd : d = A ++ '\n' :: lastLine d) (v : Option Int) :
+    (if startsWithAny tokensSet (lstrip (lastLine d)) then (d.length : Int)
+      else v.getD ((A.length + 1 + leadingWs (lastLine d) : Nat) : Int))
+    = if startsWithAny tokensSet (lstrip (lastLine d)) then (d.length : Int)
+      else v.getD (((d.length - (absorbedFooter d).length : Nat)) : Int) := by
+  by_cases ht : startsWithAny tokensSet (lstrip (lastLine d)) = true
+  · simp only [ht, if_true]
+  · simp only [ht, Bool.false_eq_true, if_false, absorbedFooter]
+    have h1 := congrArg List.length hd
+    have h2 := lstrip_length (lastLine d)
+    have h3 := leadingWs_le (lastLine d)
+    simp only [List.length_append, List.length_cons] at h1
+    congr 3
+    omega
+
+/-- the header slice of `h ++ rest` cut at `|h|` is `h` -/
+theorem rawParts_header (h rest : Str) (l : Int) : (rawParts (h ++ rest) (h.length : Int) l).1 = some h := by
+  unfold rawParts
+  have h1 : ((h.length : Int) > -1) = True := by simp; omega
+  simp only [h1, if_true]
+  rw [slice_to _ _ (by omega)]; simp
+
 
 end DSS
